@@ -8,6 +8,7 @@
 
 namespace vf {
 int ProgMain(int, char**);
+int ExprMain(int, char**);
 }
 
 static void OnTerminate() {
@@ -24,6 +25,7 @@ int main(int argc, char** argv) {
     return 2;
   }
   if (!strcmp(argv[1], "prog")) return vf::ProgMain(argc, argv);
+  if (!strcmp(argv[1], "expr")) return vf::ExprMain(argc, argv);
   fprintf(stderr, "unknown sub-command %s\n", argv[1]);
   return 2;
 }
